@@ -242,6 +242,8 @@ def show_header(h):
 
 def op_token(op):
     k = op[0]
+    if k == "M":
+        return "K=" + show(bytes(op[1]))        # for the model an in-place overwrite of the KBPK buffer is a reassignment
     if k in ("L", "U", "D", "K"):
         return k + "=" + show(op[1])
     if k == "W":
@@ -325,8 +327,6 @@ def _impl_run_ops_body(kb, cur, ops, outs):
             # no operation may rewrite the caller's key-block protection key (the model's st_kbpk only changes by K=)
             outs.append("err:KBPK-ATTRIBUTE-MODIFIED:" + show(bytes(kb.kbpk)))
             return show_header(kb.header), outs
-        if k == "K":
-            cur = op[1]
         try:
             if k == "L":
                 outs.append("nat:%d" % kb.header.load(op[1]))
@@ -344,7 +344,19 @@ def _impl_run_ops_body(kb, cur, ops, outs):
                 del_block(kb.header.blocks, op[1])
                 outs.append("none")
             elif k == "K":
-                kb.kbpk = op[1]
+                # a fresh object each time (the previous key object is released: an object id may be reused)
+                hx = bytes(op[1]).hex()
+                kb.kbpk = b""          # the previous key object is released first, so the new one may get its address
+                kb.kbpk = bytes.fromhex(hx)       # (no temporary of the key's own size class in between)
+                cur = kb.kbpk
+                outs.append("none")
+            elif k == "M":
+                # the caller keeps the KBPK in ONE bytearray and overwrites it in place
+                if isinstance(kb.kbpk, bytearray) and len(kb.kbpk) == len(op[1]):
+                    kb.kbpk[:] = op[1]
+                else:
+                    kb.kbpk = bytearray(op[1])
+                cur = kb.kbpk
                 outs.append("none")
             else:
                 outs.append("str:" + show(str(kb)))
@@ -379,8 +391,8 @@ def with_tapes(cases, impl_results):
     items, where = [], []
     for ci, ((kbpk, ops), (_, outs)) in enumerate(zip(cases, impl_results)):
         for oi, (op, out) in enumerate(zip(ops, outs)):
-            if op[0] == "K":
-                kbpk = op[1]
+            if op[0] in ("K", "M"):
+                kbpk = bytes(op[1])
             if op[0] == "W" and out.startswith("str:"):
                 items.append((kbpk, op[1], unshow_str(out[4:])))
                 where.append((ci, oi))
